@@ -181,7 +181,8 @@ def corpus(name, mod=None):
 
 def grow_valid(mod, known, limit):
     from . import inputs
-    alpha = inputs.module_alphabet(mod)[:24]
+    alpha0 = inputs.module_alphabet(mod, cap=60)
+    alpha = ([c for c in alpha0 if not c.isalnum()] + [c for c in alpha0 if c.isalnum()])[:32]      # symbols first
     seen = set(known)
     try:
         seen |= set(mod.compact(x) for x in known)
